@@ -58,6 +58,16 @@ func c17AtTip(env *Env, w *world.World, r *sim.Replica, mr *ModelRun) *Violation
 	api := newAPI(r)
 	l := mr.L
 	tip := l.Height
+	if len(mr.Mismatches) > 0 || mr.Ambiguous > 0 {
+		// the model stopped following before the tip: only the oracles that do
+		// not need it (history replay, paging) are evaluated, at the daemon's tip
+		env.Stats.Probe("history_oracles_evaluated_without_the_model")
+		tip = r.Synced()
+		if v := replayHistory(env, w, r.RO(), tip); v != nil {
+			return v
+		}
+		return pagingCheck(env, w, r.RO(), api)
+	}
 	// ---- (a) status of every entry
 	stillHeld := map[string]bool{}
 	for _, hsh := range l.HeldHashes() {
